@@ -282,6 +282,19 @@ func judgePipe(r *vlib.Run, e *env, c *pipeCase, o outcome) {
 				r.Count("filtered_replies_aaaa_kept_upstream_ad", 1)
 			}
 		}
+		if kept == 0 && len(synth) == 0 && c.Resp.AD {
+			// every downstream AAAA stripped, nothing synthesised, upstream
+			// had AD=1: split by why synthesis produced nothing
+			why := "none"
+			if rs, _ := forbidReasons(c, m, readA(c)); len(rs) > 0 {
+				why = rs[len(rs)-1]
+			}
+			r.Count("filtered_all_stripped_no_synth_upstream_ad", 1)
+			r.Count("filtered_all_stripped_no_synth_upstream_ad/"+why, 1)
+			if reply.AuthenticatedData {
+				r.Count("filtered_all_stripped_no_synth_reply_ad/"+why, 1)
+			}
+		}
 		if reply.AuthenticatedData && len(synth) == 0 {
 			sig := "ad/set-on-filtered/aaaa-kept"
 			if kept == 0 {
@@ -300,6 +313,12 @@ func judgePipe(r *vlib.Run, e *env, c *pipeCase, o outcome) {
 			}
 			if len(reasons) == 1 {
 				r.Count("nosynth_sole_"+reasons[0], 1)
+				if reasons[0] == "dnssec-failure" && len(c.Resp.EDE) > 1 && !dnssecFailureEDE[c.Resp.EDE[0]] {
+					r.Count("nosynth_sole_dnssec-failure_ede_not_first", 1)
+				}
+				if reasons[0] == "a-all-excluded-under-wkp" && m.defaultedWKP {
+					r.Count("nosynth_sole_a-all-excluded-under-defaulted-wkp", 1)
+				}
 				r.Distinct("nosynth/" + reasons[0] + "/" + c.Resp.Shape + "/" + c.A.Shape)
 			}
 			if aLookups > 0 && !strings.HasPrefix(reasons[0], "a-") {
@@ -413,6 +432,9 @@ func judgePipe(r *vlib.Run, e *env, c *pipeCase, o outcome) {
 			}
 			if m.skipA(p, v4) == 1 {
 				r.Count("synth_pairs_skipped_excluded_under_wkp", 1)
+				if m.defaultedWKP {
+					r.Count("synth_pairs_skipped_excluded_under_defaulted_wkp", 1)
+				}
 			}
 		}
 	}
@@ -422,6 +444,9 @@ func judgePipe(r *vlib.Run, e *env, c *pipeCase, o outcome) {
 	}
 	for l := range lens {
 		r.Count(fmt.Sprintf("synth_replies_len%d", l), 1)
+	}
+	if m.defaultedWKP {
+		r.Count("synth_replies_defaulted_wkp", 1)
 	}
 	if len(m.prefixes) > 1 {
 		r.Count("synth_replies_multi_prefix", 1)
